@@ -176,6 +176,7 @@ func runC09(c *Ctx) {
 	ruleDefer(c, "R-DEFER", pkgs)
 	ruleStaleErr(c, "R-STALE-ERR", pkgs)
 	c09FileLock(c, pkStore)
+	c09EntryKey(c)
 	{
 		op := append([]*packages.Package{}, pkgs...)
 		if q := p.Pkg("private/bufpkg/bufmodule"); q != nil {
